@@ -561,6 +561,22 @@ fn mode_io(argc: c_int, argv: *const *const c_char) -> c_int {
                     }
                 }
             }
+            "T" => {
+                // T<ms>: job control - stop (SIGSTOP) and be continued <ms> later by a helper process
+                let ms = num(rest);
+                let me = unsafe { libc::getpid() };
+                let helper = unsafe { libc::fork() };
+                if helper == 0 {
+                    sleep_ms(ms);
+                    unsafe {
+                        libc::kill(me, libc::SIGCONT);
+                        libc::_exit(0);
+                    }
+                }
+                rep.line(&format!("T stopping {}", idx));
+                unsafe { libc::raise(libc::SIGSTOP) };
+                rep.line(&format!("T continued {}", idx));
+            }
             "c" => {
                 unsafe { libc::close(num(rest) as c_int) };
                 rep.line(&format!("c {} {}", rest, idx));
